@@ -16,7 +16,7 @@ pub static DEF: PropDef = PropDef {
     id: "C16",
     level: "exploration",
     engine: "query",
-    rule: "one run = a real CachedObjectStore + TieredCache (L1 from 300 bytes, i.e. evict on every insert, to 8 MB; no disk tier in the seeded phase, foyer disk tier of 64 KB..1 MB on /dev/shm in the thorough-only 'l2' phase) over the simulated store, a growing set of 80..200 write-once objects of 1 byte..6 KB written in 3..5 waves, and 2..4 concurrent reader tasks issuing 30..80 reads each (whole GET, get_range, get_ranges with nested / touching / out-of-order ranges, GET with range option, If-Match / If-None-Match with right and wrong ETags, never-written keys incl. keys that share a file name or prefix with written ones); the inner store's requests are seeded scheduling points (concurrent misses on the same and on different keys), half of the runs inject request failures on the miss path, a third drop one read in eight at a seeded point (reader went away: a dropped leader of a coalesced miss must not poison what the others get); whenever a read returns bytes they must equal the backing store's object (the requested range of it), a missing key must fail; distinct = distinct grant sequence; non-trivial = completed AND an L1 eviction happened (misses on re-read keys)",
+    rule: "one run = a real CachedObjectStore + TieredCache (L1 from 300 bytes, i.e. evict on every insert, to 8 MB; no disk tier in the seeded phase, foyer disk tier of 64 KB..1 MB on /dev/shm in the thorough-only 'l2' phase) over the simulated store, a growing set of 80..200 write-once objects of 1 byte..6 KB (one run in ten: 20..50 objects, one or two of them 2..5 MiB) written in 3..5 waves (a third of the runs with writes that fail before / after taking effect, create-only uploads, a create-only re-upload of an existing name that the store refuses, and a failed write of a never-written name; the model is what the backing store holds after each attempt), and 2..4 concurrent reader tasks issuing 30..80 reads each (whole GET, get_range, get_ranges with nested / touching / out-of-order ranges, GET with range option, If-Match / If-None-Match with right and wrong ETags, never-written keys incl. keys that share a file name or prefix with written ones); the inner store's requests are seeded scheduling points (concurrent misses on the same and on different keys), half of the runs inject request failures on the miss path, a third drop one read in eight at a seeded point (reader went away: a dropped leader of a coalesced miss must not poison what the others get); whenever a read returns bytes they must equal the backing store's object (the requested range of it), a missing key must fail; distinct = distinct grant sequence; non-trivial = completed AND an L1 eviction happened (misses on re-read keys)",
     quick_runs: 5000,
     thorough_runs: 30_000,
     run_cap_ms: 60_000,
@@ -26,6 +26,22 @@ pub static DEF: PropDef = PropDef {
     stub: &["backing store = InMemory behind SimStore"],
     assumptions: &["write-once objects; no deletes through other handles (the statement is about a growing key set)", "with the foyer disk tier the schedule of reader tasks is still the simulator's, but which tier serves a read depends on foyer's own threads: the verdict (bytes equal) does not, exact log-level replay is guaranteed only without L2"],
 };
+
+/// The model is the backing store itself: after every write attempt, whatever its reported outcome, look at what
+/// the store now holds under that name (raw handle, no gate, no fault).
+async fn refresh_model(inner: &Arc<InMemory>, model: &Arc<Mutex<BTreeMap<String, (Bytes, Option<String>)>>>, name: &str) {
+    match inner.get(&Path::from(name)).await {
+        Ok(g) => {
+            let etag = g.meta.e_tag.clone();
+            if let Ok(b) = g.bytes().await {
+                model.lock().unwrap().insert(name.to_string(), (b, etag));
+            }
+        }
+        Err(_) => {
+            model.lock().unwrap().remove(name);
+        }
+    }
+}
 
 fn content(k: usize, len: usize) -> Vec<u8> {
     (0..len).map(|i| ((k * 131 + i * 7 + (i >> 8)) % 251) as u8).collect()
@@ -41,7 +57,9 @@ fn scen(spec: RunSpec) -> ScenFut {
         let l2 = spec.variant == "l2";
         let inner = Arc::new(InMemory::new());
         let store: Arc<dyn ObjectStore> = SimStore::new(inner.clone(), 0);
-        let l1 = [300usize, 2_000, 20_000, 8 << 20][sim::w(4) as usize];
+        // one run in ten also holds one or two objects of several MiB (a store handle may fetch those differently)
+        let big_run = sim::w(10) == 9;
+        let l1 = if big_run { [20_000usize, 8 << 20, 64 << 20][sim::w(3) as usize] } else { [300usize, 2_000, 20_000, 8 << 20][sim::w(4) as usize] };
         let l2_dir = if l2 { Some(crate::core::disk::scratch_dir("l2")) } else { None };
         let l2_size = [64usize << 10, 256 << 10, 1 << 20][sim::w(3) as usize];
         let cache = match TieredCache::new(CacheConfig { l1_size: l1, l2_size, l2_dir: l2_dir.clone() }).await {
@@ -68,7 +86,10 @@ fn scen(spec: RunSpec) -> ScenFut {
                 c.fault_budget = fb;
             }
         });
-        let total = sim::w_range(80, 200) as usize;
+        // a third of the runs have writes that fail or are refused: a failed request (before or after it took effect),
+        // and create-only uploads of a name that already exists (a writer retrying an upload that did succeed)
+        let write_faults = sim::w(3) == 2;
+        let total = if big_run { sim::w_range(20, 50) as usize } else { sim::w_range(80, 200) as usize };
         let waves = sim::w_range(3, 5) as usize;
         let model: Arc<Mutex<BTreeMap<String, (Bytes, Option<String>)>>> = Arc::new(Mutex::new(BTreeMap::new()));
         sim::log(format!("CONFIG l1={l1} l2={:?} keys={total} waves={waves} faults={faults}", l2_dir.as_ref().map(|_| l2_size)));
@@ -80,16 +101,72 @@ fn scen(spec: RunSpec) -> ScenFut {
             let upto = total * (wv + 1) / waves;
             sim::set_cfg(|c| c.enabled = false);
             for k in written..upto {
-                let len = [1usize, 17, 200, 900, 3000, 6000][sim::w(6) as usize];
+                let mut len = [1usize, 17, 200, 900, 3000, 6000][sim::w(6) as usize];
+                if big_run && (k == written || (k == written + 1 && sim::w_bool(50))) && wv < 2 {
+                    len = [(2 << 20) + (1 << 19), (3 << 20) + 17, (5 << 20) + 1, 2 << 20][sim::w(4) as usize];
+                    sim::probe("object-of-several-MiB");
+                }
                 let data = Bytes::from(content(k, len));
                 let name = key_name(k);
-                let r = cs.put(&Path::from(name.clone()), PutPayload::from(data.clone())).await;
-                match r {
-                    Ok(pr) => {
-                        model.lock().unwrap().insert(name, (data, pr.e_tag));
-                    }
-                    Err(e) => sim::log(format!("put failed: {e}")),
+                // the write itself may fail: before it took effect (nothing stored) or after (stored, error reported)
+                let faulty = write_faults && sim::w(6) == 5;
+                let saved = sim::with(|st| st.cfg.clone());
+                if faulty {
+                    sim::set_cfg(|c| {
+                        c.enabled = true;
+                        c.fail_before_pm = 500;
+                        c.fail_after_pm = 500;
+                        c.delay_pm = 0;
+                        c.body_break_pm = 0;
+                        c.fault_budget = 1;
+                    });
                 }
+                let create_only = sim::w(4) == 3;
+                let r = if create_only {
+                    cs.put_opts(&Path::from(name.clone()), PutPayload::from(data.clone()), object_store::PutOptions { mode: object_store::PutMode::Create, ..Default::default() }).await
+                } else {
+                    cs.put(&Path::from(name.clone()), PutPayload::from(data.clone())).await
+                };
+                if faulty {
+                    sim::set_cfg(|c| *c = saved);
+                }
+                if let Err(e) = &r {
+                    sim::probe("write-failed");
+                    sim::log(format!("put of {name} failed: {e}"));
+                }
+                refresh_model(&inner, &model, &name).await;
+            }
+            if write_faults && written > 0 {
+                // a writer retrying an upload that did succeed: create-only, so the store refuses it and keeps the
+                // first upload; what it sent the second time (other bytes here, to make the difference visible) is
+                // not what the backing store holds
+                for _ in 0..sim::w_range(1, 4) {
+                    let k = sim::w(written as u32) as usize;
+                    let name = key_name(k);
+                    let other = Bytes::from(content(k + 100_000, [1usize, 200, 3000][sim::w(3) as usize]));
+                    let r = cs.put_opts(&Path::from(name.clone()), PutPayload::from(other), object_store::PutOptions { mode: object_store::PutMode::Create, ..Default::default() }).await;
+                    if r.is_err() {
+                        sim::probe("create-only-upload-of-an-existing-name-refused");
+                    }
+                    refresh_model(&inner, &model, &name).await;
+                }
+                // and a failed write of a name that was never written
+                let saved = sim::with(|st| st.cfg.clone());
+                sim::set_cfg(|c| {
+                    c.enabled = true;
+                    c.fail_before_pm = 1000;
+                    c.fail_after_pm = 0;
+                    c.delay_pm = 0;
+                    c.body_break_pm = 0;
+                    c.fault_budget = 1;
+                });
+                let name = "default/data/dir9/chunk_0.parquet".to_string();
+                let r = cs.put(&Path::from(name.clone()), PutPayload::from(Bytes::from_static(b"never stored"))).await;
+                sim::set_cfg(|c| *c = saved);
+                if r.is_err() {
+                    sim::probe("write-of-a-new-name-failed");
+                }
+                refresh_model(&inner, &model, &name).await;
             }
             written = upto;
             sim::set_cfg(|c| c.enabled = true);
